@@ -563,11 +563,21 @@ package parse
 //@ func BinaryReader.Read
 //@   preserves[S] brInv(r)
 //@   requires[S] smallInt(r.pos)
+// io.Reader: the error belongs to this call (a full read returns nil whatever earlier reads latched in Err()), and the bytes
+// delivered are the content at the position before the call
+//@   ensures[F,C19] @io-reader: len(b) > 0 && result1 == nil ==> result0 == len(b)
+// Read and ReadAt hand their error to the caller, as io.Reader does; the error latched by the typed readers (Err()) is neither
+// consulted nor changed, so a read that succeeds after a Seek back into the data is not reported as failed
+//@   ensures[F,C19] @err-untouched: r.err == old(r.err)
+//@   ensures[F,C19] @io-reader-content: forall(i, 0, result0, b[i] == content(r.f, old(r.pos) + i))
 //@   ensures[S]  0 <= result0 && result0 <= len(b) && r.pos == old(r.pos) + result0
 //@ func BinaryReader.ReadAt
 //@   preserves[S] brInv(r)
 //@   requires[S] smallInt(r.pos)
 //@   requires[S] 0 <= off && smallInt(off)
+//@   ensures[F,C19] @io-readerat: len(b) > 0 && result1 == nil ==> result0 == len(b)
+//@   ensures[F,C19] @err-untouched: r.err == old(r.err)
+//@   ensures[F,C19] @io-readerat-content: forall(i, 0, result0, b[i] == content(r.f, off + i))
 //@   ensures[S]  0 <= result0 && result0 <= len(b) && r.pos == old(r.pos)
 
 //@ func BinaryReader.ReadUint8
